@@ -573,7 +573,40 @@ func (a *Adversary) forgedNV(h uint64) bool {
 	for _, id := range voteIds(votes) {
 		have[id] = true
 	}
-	variant := a.r.Intn(8)
+	variant := a.r.Intn(9)
+	if variant == 8 {
+		// exactly one forged vote, in the name of the node the NEW_VIEW is sent to (a vote that node never cast), preferably
+		// one whose weight completes the quorum
+		var cands, completing []*Node
+		for _, n := range a.at(h) {
+			if have[n.Id] || !c.Has(n.Id) {
+				continue
+			}
+			cands = append(cands, n)
+			if c.IsQuorum(append(voteIds(votes), n.Id)) && !c.IsQuorum(voteIds(votes)) {
+				completing = append(completing, n)
+			}
+		}
+		if len(completing) > 0 {
+			cands = completing
+		}
+		if len(cands) == 0 {
+			return false
+		}
+		t := cands[a.r.Intn(len(cands))]
+		var vt *ref.Vote
+		if a.r.Intn(2) == 0 {
+			vt = a.mkVote(t.Id, inst, h, v, nil)
+		} else {
+			vt = &ref.Vote{Type: ref.VC, Inst: inst, H: h, V: v}
+			vt.Sender = ref.Sig{Id: t.Id, Sig: a.w.Keys.SignCM(leader, h, vt.HeaderBytes())}
+		}
+		votes = append(votes, vt)
+		E := a.newBlock(h, false)
+		a.send(leader, t.Id, a.mkNV(leader, h, v, votes, spi.HashOf(E), E, v))
+		a.w.Mon.Stats["adv NEW_VIEW with one forged vote in the receiver's own name"]++
+		return true
+	}
 	// fill up to quorum with forged votes
 	for _, m := range c.Members {
 		id := string(m.Id)
